@@ -19,7 +19,7 @@ Outs3 == {"ok", "e1", "e2"}
 Outs4 == {"ok", "e1", "panic"}
 Outs2 == {"ok", "e1"}
 FOps == {"force_open"}
-Inv == HalfBound /\ OpenHasEmptyHalfOpenCounters /\ WindowBounded /\ OpenShields /\ ClosedNeverFullOfFailures
+Inv == HalfBound /\ NoWedge /\ OpenHasEmptyHalfOpenCounters /\ WindowBounded /\ OpenShields /\ ClosedNeverFullOfFailures
 Depth7 == TLCGet("level") <= 8
 Depth6 == TLCGet("level") <= 7
 Depth12 == TLCGet("level") <= 13
